@@ -96,9 +96,15 @@ LAT_NOTE = BASE_NOTE + ("np.linalg.lstsq / solve are modelled by normal equation
 add('C17',
     "Coq theorems over Q: indices->coordinates->indices and back are identities for non-parallel vectors (None for parallel ones); frame_peaks is exactly the "
     "filter r <= p < frame - r (both axes) in index order with p = zero + i a + j b; position and number of entries of the mgrid layout; drop_zero removes "
-    "exactly (0,0). Tie: all of these in exact rationals vs the numpy implementation, incl. integer lattices with peaks exactly ON the boundary.",
-    LAT_NOTE + "Polar <-> cartesian round trip involves arctan2/sin/cos: sampled only.",
-    "Coq proof (field over Q, list induction) + exact-rational correspondence + oracle", "5/C17")
+    "exactly (0,0). Over Coq's reals (Props/C17R.v): make_polar(make_cartesian(r, phi)) has radius r for r >= 0 (|r| in general) and phi is an admissible angle; "
+    "make_cartesian(|v|, a) = v for every angle a satisfying arctan2's defining relation (zero vector included); admissible angles of a non-zero vector share sine "
+    "and cosine. Tie: all Q theorems in exact rationals vs the numpy implementation, incl. integer lattices with peaks exactly ON the boundary; the R model is "
+    "tied by the float oracle only (round trip, stacks, integer dtypes).",
+    LAT_NOTE + "EXCEPTION to 'no axioms': the four theorems of Props/C17R.v depend on the standard library's real-number axioms "
+    "ClassicalDedekindReals.sig_forall_dec, ClassicalDedekindReals.sig_not_dec and FunctionalExtensionality.functional_extensionality_dep (allowed for that file only, "
+    "anything else fails the check). arctan2 is characterised by cos a |v| = x, sin a |v| = y rather than defined; that numpy's arctan2/sin/cos/norm satisfy this "
+    "to round-off is sampled, not proved.",
+    "Coq proof (field over Q, list induction; Reals sin2_cos2/sqrt_Rsqr_abs for the polar clause) + exact-rational correspondence + oracle", "5/C17")
 add('C06',
     "Coq theorems over Q for any number of points: the Cramer solution solves the weighted normal equations, which minimises the weighted cost for "
     "non-negative weights; uniqueness; invariance under rescaling all weights; linearity in the response (= affine covariance: zero maps by the affine map, a and b by "
